@@ -11,7 +11,7 @@ from .. import gen, tracer
 from . import runlevel
 
 # case kinds of corpus/ entries (failing inputs of past regressions) that this module replays on every run
-CORPUS_KINDS = ('history_pair',)
+CORPUS_KINDS = ('history_pair', 'process_pair')
 
 
 
@@ -101,8 +101,52 @@ def _job(args):
     return {"calls": calls, "ys": [float(v) for v in aux["calls"]["ys"]], "out": out, "log_init": log_init, "log_opt": log_opt}
 
 
+def _other_process(spec, hashseed):
+    """The run in a SEPARATE interpreter with its own hash randomisation (PYTHONHASHSEED): same problem, options and seed."""
+    import json, subprocess, sys
+    from ..proto import VERIF
+    code = ("import sys, json, os; sys.path.insert(0, %r); sys.path.insert(0, os.environ.get('VERIF_REPO', '/repo'))\n"
+            "import logging, warnings; logging.disable(logging.CRITICAL); warnings.filterwarnings('ignore')\n"
+            "from harness.props import c07\n"
+            "r = c07._job((json.loads(sys.stdin.read()), [], [], 0))\n"
+            "print('RESULT' + json.dumps({'calls': r['calls'], 'out': r['out']}))\n") % VERIF
+    env = dict(os.environ, PYTHONHASHSEED=str(hashseed), OMP_NUM_THREADS="1")
+    p = subprocess.run([sys.executable, "-c", code], input=json.dumps(spec), capture_output=True, text=True, env=env, timeout=900)
+    for line in p.stdout.splitlines():
+        if line.startswith("RESULT"):
+            return json.loads(line[6:])
+    raise RuntimeError("cross-process job failed: " + p.stderr[-400:])
+
+
+def cross_process(ctx, rep):
+    """Two interpreters with different hash randomisation: high dimension and a start point on the plausible bound (long start-point
+    strings seed the Sobol design)."""
+    rng = ctx.sub_rng("c07x")
+    specs = []
+    for D, on_plb in ((8, False), (2, True), (3, True)) if ctx.quick else ((8, False), (9, False), (2, True), (3, True), (4, False), (8, True)):
+        sp = gen.make_spec(rng, D=D, geom="box", mode=rng.choice(["det", "decl"]), cons=None, target="quad")
+        if on_plb:
+            sp["x0_unit"][0] = -1.0
+        sp["options"] = {"n_search": 32, "max_fun_evals": (D + 12) if sp["mode"] == "det" else 45, "noise_final_samples": 0}
+        specs.append(sp)
+    import concurrent.futures as cf
+    with cf.ThreadPoolExecutor(max_workers=8) as ex:
+        futs = [(sp, ex.submit(_other_process, sp, 101), ex.submit(_other_process, sp, 202)) for sp in specs]
+        for sp, fa, fb in futs:
+            a, b = fa.result(), fb.result()
+            case = {"kind": "process_pair", "spec": sp}
+            if a["calls"] != b["calls"]:
+                n = next((i for i, (x, y) in enumerate(zip(a["calls"], b["calls"])) if x != y), min(len(a["calls"]), len(b["calls"])))
+                rep.violation("same_points_across_processes", "bads.py:random seeding", f"two interpreter processes (PYTHONHASHSEED 101 / 202) evaluate different points with the same problem, options and "
+                              f"random_seed (first difference at call #{n}); {runlevel.spec_tag(sp)}", case)
+            elif a["out"] != b["out"]:
+                rep.violation("same_result_across_processes", "bads.py:random seeding", f"two interpreter processes return different results: {a['out']} vs {b['out']}; {runlevel.spec_tag(sp)}", case)
+    return len(specs)
+
+
 def run(ctx):
     rep = Report()
+    nx = cross_process(ctx, rep)
     rng = ctx.sub_rng("c07")
     import multiprocessing as mp
     specs = []
@@ -155,19 +199,26 @@ def run(ctx):
         elif r["out"] != b["out"]:
             rep.violation("same_result", "bads.py:random seeding", f"result differs from the fresh-process run: {r['out']} vs {b['out']}; {tag}", case)
     rep.coverage = {
-        "evaluations": stats["pairs"], "distinct_nontrivial": stats["pairs"],
+        "evaluations": stats["pairs"] + nx, "distinct_nontrivial": stats["pairs"] + nx, "cross_process_pairs": nx,
         "rule": "one evaluation = one history pair: the same problem/options/seed run in a fresh process and after a generated foreign history (raw np.random consumption, other BADS constructions and runs with other D/options, "
-                "before the construction and between construction and run), compared bit for bit (every evaluated point, x, fval, fsd, func_count, message, x0); plus the seeding discipline (first generator use in __init__ and optimize() is seed(s))",
+                "before the construction and between construction and run; sibling instances of the same dimension with other option values), plus pairs of SEPARATE interpreter processes "
+                "with different hash randomisation (PYTHONHASHSEED), compared bit for bit (every evaluated point, x, fval, fsd, func_count, message, x0); plus the seeding discipline (first generator use in __init__ and optimize() is seed(s))",
         "samples": [{"spec": specs[0], "pre": meta[1][2], "mid": meta[1][3]}], "stats": stats, "traces_validated_against_impl": stats["pairs"],
         "explanation": "PARTIAL: the theorem covers entropy flowing through NumPy's global generator; other entropy sources are covered only as far as these pairs exercise them (testing)",
     }
-    rep.assumptions = ["entropy outside NumPy's global generator (hash randomisation, BLAS threading, wall clock, library-private generators) is not in the model"]
+    rep.assumptions = ["entropy outside NumPy's global generator (hash randomisation, BLAS threading, wall clock, library-private generators) is not in the model; "
+                       "hash randomisation is exercised by the cross-process pairs (testing, not proof)"]
     return rep
 
 
 def replay(ctx, data):
     rep = Report()
     c = data["case"]
+    if c.get("kind") == "process_pair":
+        a, b = _other_process(c["spec"], 101), _other_process(c["spec"], 202)
+        if a["calls"] != b["calls"] or a["out"] != b["out"]:
+            rep.violation("same_points_across_processes", "bads.py:random seeding", "two interpreter processes (PYTHONHASHSEED 101 / 202) differ with the same problem, options and random_seed", c)
+        return rep
     if c.get("kind") != "history_pair":
         return run(ctx)
     import multiprocessing as mp
